@@ -429,7 +429,7 @@ def run(ctx):
     if os.path.exists(e2e_p):
         os.remove(e2e_p)
     rc_e, out_e = ctx.go_test("actor", "^TestVerifC28Actor", ["zz_verif_C28_test.go"],
-                              env={"VERIF_C28_E2E_ROUNDS": "30" if ctx.thorough else "6"}, timeout=1200)
+                              env={"VERIF_C28_E2E_ROUNDS": "30" if ctx.thorough else "6", "CGO_ENABLED": "0"}, timeout=1200)
     e2e = read_jsonl(e2e_p)
     if rc_e != 0 or not e2e:
         ctx.tie_broken("go-harness actor RemoteAsk/RemoteBatchAsk", out_e)
